@@ -15,7 +15,7 @@ import pkgutil
 import numpy as np
 
 from harness import bijser as S
-from harness import c08
+from harness import c08, common
 
 PROPERTY = "C13"
 GROUPS = ["bij"]
@@ -179,13 +179,14 @@ def wellformed(b, xs, cs):
 def run_battery(ctx, u, name, b, term, cases, spec=None):
     reqs = [f"run {m} {term} {S.s_tensor(np.full(xs, 0.5))} {'none' if cs is None else S.s_tensor(np.full(cs, 0.25))}" for m, xs, cs, _ in cases]
     outs = ctx.model(reqs)
+    tkey = "" if spec is None else common.sha(term)
     for (m, xs, cs, kind), line in zip(cases, outs):
         model = S.parse_run(line)
         wf = wellformed(b, xs, cs)
         if wf and m.startswith("inverse") and name.split("[")[0] in NO_VALID_INVERSE:
             continue
         impl = call(b, m, xs, cs)
-        u.count(f"{name}|{tuple(b.shape)}|{m}|{xs}|{cs}", nontrivial=not wf, tag=f"{name.split('[')[0]}:{kind}")
+        u.count(f"{name}|{tkey}|{tuple(b.shape)}|{m}|{xs}|{cs}", nontrivial=not wf, tag=f"{name.split('[')[0]}:{kind}")
         case = dict(cls=name, shape=list(b.shape), cond_shape=None if b.cond_shape is None else list(b.cond_shape), method=m,
                     x_shape=list(xs), c_shape=None if cs is None else list(cs), term=term[:2000])
         if spec is not None:
@@ -369,7 +370,7 @@ def run(ctx):
         ctx.notes.append(f"class {n} was never instantiated on the lattice")
     # ---- generated compositions
     G = c08.Gen(rng)
-    n_comp = 50 if ctx.quick else 1200
+    n_comp = 50 if ctx.quick else 3000
     for i in range(n_comp):
         s = list(LATTICE[int(rng.integers(0, len(LATTICE)))])
         cs = None if rng.random() < 0.4 else [[2], [3], [2, 3], [1, 2]][int(rng.integers(0, 4))]
@@ -385,7 +386,7 @@ def run(ctx):
     # ---- constructors
     for spec, tag in c08.directed_ctor_specs(G, ctx.quick):
         c08.check_tree(ctx, uk, spec, rng, tag, with_oracle=True)
-    for i in range(80 if ctx.quick else 2000):
+    for i in range(80 if ctx.quick else 3000):
         c08.check_tree(ctx, uk, G.bad_ctor(), rng, "ctor", with_oracle=True)
     dist_unit(ctx, ud)
     ctx.assumptions += [
